@@ -18,7 +18,7 @@ BOUNDS = ['one operation from an arbitrary state (inductive step); all u64 amoun
 ASSUMPTIONS = c08.ASSUMPTIONS + [
     'C05: pool.liquidity equals the sum of the liquidity of positions in range (decided per step in C05)',
     'C03/C06: the totals returned by swap() are the sums of its steps and the handlers transfer exactly those totals',
-    'written, not solver-decided: (i) summation over positions: sum_i floor(L_i*d/2^64) <= floor(L*d/2^64) when sum_i L_i = L; (ii) telescoping of exact amounts over steps and tick '
+    'summation over positions: the inductive step (adding one position to a set) is solver-decided (O5:summation_inductive_step); written, not solver-decided: (ii) telescoping of exact amounts over steps and tick '
     'crossings: the exact reserves R_A(p) = sum_i claim_A(i, p), R_B(p) are functions of the price only, every step changes the vault by at least the change of R, hence '
     'vault >= protocol_owed + fees_owed + R at every prefix; (iii) a pure trader ends with net_A <= R_A(p_start) - R_A(p_end) and net_B likewise, which cannot both be >= 0 with one > 0',
 ]
@@ -107,10 +107,24 @@ def o6_task(ctx):
             'with the input rounded down the round trip can gain (as required)' if tw.verdict == 'sat' else 'twin not refuted', False)
 
 
+def sum_task(ctx):
+    """inductive step of the summation over positions (any number of positions): if the credits of a set of positions with total liquidity S are bounded by
+    floor(S*d/2^64), adding one more position with liquidity Li keeps the bound for S+Li — so sum_i floor(L_i*d/2^64) <= floor(L*d/2^64) <= lp_fee for every
+    position set whose liquidity sums to the in-range liquidity L (C05)"""
+    T.reset()
+    S_ = T.var('S_others', 0, 2**128 - 1); Li = T.var('L_i', 0, 2**128 - 1); d = T.var('growth_delta', 0, 2**128 - 1)
+    credited = T.var('credited_others', 0, None)
+    pre = [T.cmp('<=', T.add(S_, Li), C(2**128 - 1)), T.cmp('<=', credited, T.div(T.mul(S_, d), W64))]
+    goal = T.cmp('<=', T.add(credited, T.div(T.mul(Li, d), W64)), T.div(T.mul(T.add(S_, Li), d), W64))
+    o = M.Obligation('O5:summation_inductive_step', pre, goal, note='base case: no positions, 0 <= 0'); o.replay = None
+    o2 = M.Obligation('O5:summation_base', [], T.cmp('<=', C(0), T.div(T.mul(C(0), d), W64))); o2.replay = None; o2.nontrivial = False
+    ctx.discharge([o, o2])
+
+
 def run(ctx):
     ctx.mir()
     keep_step = ('b_in_ceil', 'b_out_floor', 'b_out_floor_or_cap', 'f_no_wrap')
-    tasks = [('O4', o4_task), ('O6', o6_task)]
+    tasks = [('O4', o4_task), ('O6', o6_task), ('O5sum', sum_task)]
     tasks += [(f"O3:step:{'in' if ei else 'out'}:{'a2b' if ab else 'b2a'}", c02.step_task(ei, ab, keep_step)) for ei in (True, False) for ab in (True, False)]
     tasks += [(f"O1O2:deltas:{'pino' if p else 'anchor'}:{'add' if s else 'remove'}", c08.deltas_task(p, s)) for p in (False, True) for s in (True, False)]
     tasks += [('O1O2:roundtrip', c08.roundtrip_task)]
